@@ -2,12 +2,10 @@
      lint := s e kind prio ; message cps ; sugg , sugg ...        sugg := R cps | I cps | D
      doc  := source cps ; tok , tok ...                            tok  := s e KIND
      KIND := W - | W code | P code | Q - | Q n | D | N code (-|code) radix precision | S n | L n | E | U | H | X | B | R
-   C<v> lint | doc              -> token indices of LintContext::from_lint (prequel ++ problem ++ sequel)
-   X<v> lint | doc | lint | doc -> S (same context: lint 2 is ignored after ignoring lint 1), D, or P (panic)
-        <v> = the variant of the context the implementation follows (0 = as it is now, 1 = F12 repaired,
-        2 = F13 repaired, 3 = both), determined by the harness from the stored hashes
-   J cps                        -> import of that JSON text into an empty list: sorted hashes, or E
-   H<v> docs # lints # ops      -> history on one IgnoredLints: i l d (ignore), q l d (is_ignored -> y/n),
+   C lint | doc              -> token indices of LintContext::from_lint (prequel ++ problem ++ sequel), or P (panic)
+   X lint | doc | lint | doc -> S (same context: lint 2 is ignored after ignoring lint 1), D, or P (panic)
+   J cps                     -> import of that JSON text into an empty list: sorted hashes, or E
+   H docs # lints # ops      -> history on one IgnoredLints: i l d (ignore), q l d (is_ignored -> y/n),
         r d l.. (remove_ignored -> [k-..]), x / f (export + import into the same / a fresh list), c (clear), n (size) *)
 let split c s = List.map String.trim (String.split_on_char c s)
 let ints s = ints_of_line s
@@ -76,23 +74,21 @@ let hash (c : ctx) : n =
 let () =
   iter_lines (fun l ->
     if String.length l = 0 then print_newline () else
-    let has_v = String.length l > 1 && l.[1] >= '0' && l.[1] <= '3' in
-    let v = if has_v then nat_of_int (Char.code l.[1] - 48) else O in
-    let ctxv = context_v v in
-    let k = if has_v then 2 else 1 in
-    let body = String.sub l k (String.length l - k) in
+    let ctxv = context in
+    let body = String.sub l 1 (String.length l - 1) in
     try
       match l.[0] with
       | 'C' ->
           (match split '|' body with
            | [li; d] ->
-               let idx = run_context_indices v (parse_lint li) (parse_doc d) in
-               print_endline (String.concat " " (List.map (fun k -> string_of_int (int_of_nat k)) idx))
+               (match run_context_indices (parse_lint li) (parse_doc d) with
+                | Some idx -> print_endline (String.concat " " (List.map (fun k -> string_of_int (int_of_nat k)) idx))
+                | None -> print_endline "P")
            | _ -> print_endline "?")
       | 'X' ->
           (match split '|' body with
            | [l1; d1; l2; d2] ->
-               (match run_same_context v (parse_lint l1) (parse_doc d1) (parse_lint l2) (parse_doc d2) with
+               (match run_same_context (parse_lint l1) (parse_doc d1) (parse_lint l2) (parse_doc d2) with
                 | Some true -> print_endline "S"
                 | Some false -> print_endline "D"
                 | None -> print_endline "P")
